@@ -403,6 +403,16 @@ def boundary_matrix(kind, start):
                           "dump 4", "slots"]
                 out.append(Case(lines, {"profile": "boundary", "scenario": "matrix", "key": kt, "cap": cap}))
                 j += 1
+        # the planes are copied in whole 64-bit words: a table of 65 slots (two words, one bit used in the second) grows
+        # to 130 while a removal is pending erase; a live key sits in the second word
+        lines = ["case %d" % j, _header(kind, kt), "reserve 1 65"]
+        for k in range(65):
+            lines.append("add 1 %d" % k if kind == "tss" else "set 1 %d %d" % (k, 10 + k))
+        lines += ["dump 1", "slots", ("rem 2 3" if kind == "tss" else "erase 2 3"), ("add 2 500" if kind == "tss" else "set 2 500 7"),
+                  "dump 2", "slots", "has 2 3", "has 2 64", "has 2 500", ("add 3 3" if kind == "tss" else "set 3 3 9"),
+                  ("rem 3 64" if kind == "tss" else "erase 3 64"), "dump 3", "slots"]
+        out.append(Case(lines, {"profile": "boundary", "scenario": "matrix-word-boundary", "key": kt, "cap": 65}))
+        j += 1
     return out
 
 
